@@ -12,8 +12,9 @@ SCENARIOS = {
     "C16": {
         "theorems": ["C16_layout", "C16_key_len", "C16_key_order", "C16_key_roundtrip", "C16_key_inj",
                      "C16_nodeid_roundtrip", "C16_version_roundtrip"],
-        "quick": [hist("c16", 40)],
-        "thorough": [hist("c16", 400, "thorough")],
+        "quick": [{"name": "keys", "args": ["keys", "--seed", "{seed}"]}, hist("c16", 25, extra=["--threads", "1"])],
+        "thorough": [{"name": "keys", "args": ["keys", "--seed", "{seed}", "--tier", "thorough"]}, hist("c16", 300, "thorough", extra=["--threads", "1"])],
+        "nontrivial": "builds_splits",
         "counts": ["C16"],
         "assumptions": ["little-endian host for the native-endian fields (f32 components, roots, quantised words)"],
     },
